@@ -710,7 +710,7 @@ class BaseDiscretizer(BaseEstimator, TransformerMixin):
 
         # aggregating unique values per label
         summaries = (
-            DataFrame(summaries)
+            DataFrame(summaries, columns=["feature", "dtype", "label", "content"])
             .groupby(["feature", "dtype", "label"])["content"]
             .apply(lambda u: list(unique(u)))
             .reset_index()
